@@ -40,7 +40,7 @@ CAT_KINDS_R = ["obj", "obj", "str", "str_sp", "str_comma", "list", "tuple", "arr
 CAT_KINDS_L = ["str", "str_sp", "list", "tuple", "list_bool", "str_comma"]
 BAD_NEW = ["two", "neg", "half", "str2", "stra", "2d", "none", "complex", "nan", "3d", "str2d", "strempty",
            "mixed_bad", "big", "strneg", "strfloat", "row2d", "col2d", "nest3d", "tuple_of_list", "ones_1x4", "arr_1x1",
-           "frac_trunc", "wrap256", "neg_half"]
+           "frac_trunc", "wrap256", "neg_half", "inf", "inf_scalar", "neginf", "inf32"]
 BAD_CAT = ["two", "neg", "half", "2d", "str2", "stra", "scalar_obj", "dict", "none"]
 
 
@@ -202,7 +202,8 @@ def _bad_value(what):
         "big": np.array([0, 255], dtype=np.uint8), "strneg": "0 -1 1", "strfloat": "0.5 1",
         "scalar_obj": 1, "dict": {"a": 1}, "row2d": [[0, 1]], "col2d": [[1], [0], [1]], "nest3d": [[[1]]],
         "tuple_of_list": ([1, 0, 1],), "ones_1x4": np.ones((1, 4)), "arr_1x1": np.zeros((1, 1), dtype=int),
-        "frac_trunc": [0, 1.9, 1], "wrap256": [0, 256, 1], "neg_half": [-0.5, 1],
+        "frac_trunc": [0, 1.9, 1], "wrap256": [0, 256, 1], "neg_half": [-0.5, 1], "inf": [0, float("inf"), 1],
+        "inf_scalar": float("inf"), "neginf": [float("-inf")], "inf32": np.array([np.inf, 1], dtype=np.float32),
     }[what]
 
 
@@ -460,7 +461,7 @@ class Machine:
         n, dom = op["n"], op["dom"]
         rs = np.random.RandomState(op["dseed"])
         if dom == "nonneg_int":        # integer-typed samples compared with fractional thresholds
-            sig = rs.randint(0, 4, n).astype(np.int64 if n % 2 else np.int32)
+            sig = rs.randint(0, 4, n).astype([np.int64, np.int32, np.uint8, np.uint16][op["dseed"] % 4])
             noise = rs.randint(0, 2, n).astype(sig.dtype) if op["noise"] else None
             dom = "nonneg"
         elif dom == "nonneg":
@@ -479,12 +480,17 @@ class Machine:
             if op.get("tie") and dom == "nonneg":
                 thr_arr[:: 2] = total[:: 2].real
             thr = thr_arr.tolist() if tk == "list" else thr_arr
+            if op["dom"] == "nonneg_int" and tk == "array" and op["dseed"] % 2 == 0:
+                thr_arr = np.floor(thr_arr)
+                thr = thr_arr.astype(np.uint8)    # unsigned integer threshold array
         else:
             t = float(np.round(rs.uniform(0, 2), 2)) if op["dom"] != "nonneg_int" else float(rs.randint(0, 8) / 2.0)
             if op.get("tie") and dom == "nonneg":
                 t = float(total[0].real)
             thr_arr = np.full(n, t)
             thr = {"pyfloat": t, "pyint": int(round(t)), "npfloat": np.float64(t), "len1": [t]}[tk]
+            if op["dom"] == "nonneg_int" and tk == "npfloat" and t == int(t) and op["dseed"] % 3 == 0:
+                thr = np.uint8(int(t))            # unsigned numpy scalar threshold
             if tk == "pyint":
                 thr_arr = np.full(n, float(int(round(t))))
         x = self.ES(sig.copy(), None if noise is None else noise.copy())
